@@ -43,7 +43,7 @@ theorem frameEq_trans {a b c : BState} (h1 : a.FrameEq b) (h2 : b.FrameEq c) : a
 theorem chain_ok (P : BState → Nat → Prop) (hP : FrameClosed P) (rules : List BRule) (hok : ∀ r ∈ rules, RuleOK P r)
     (s : BState) (line endLine : Nat) (hc : CallCtx P s line endLine) :
     ∃ m s', runBlockChain rules s line endLine = .ok (m, s') ∧ s.FrameEq s'
-      ∧ (m = true → line < s'.line ∧ s'.line ≤ endLine) ∧ (m = false → s'.line = s.line) := by
+      ∧ (m = true → line < s'.line ∧ s'.line ≤ s.lineMax) ∧ (m = false → s'.line = s.line) := by
   induction rules generalizing s with
   | nil => exact ⟨false, s, rfl, frameEq_refl s, by simp, by simp⟩
   | cons r rest ih =>
@@ -55,7 +55,7 @@ theorem chain_ok (P : BState → Nat → Prop) (hP : FrameClosed P) (rules : Lis
     | false =>
       have hfr := hr.frame _ _ _ _ _ hc hrs
       obtain ⟨m2, s2, h2, hf2, hp2, hm2⟩ := ih (fun q hq => hok q (by simp [hq])) s' (hc.transfer hP hfr)
-      refine ⟨m2, s2, h2, frameEq_trans hfr hf2, hp2, ?_⟩
+      refine ⟨m2, s2, h2, frameEq_trans hfr hf2, (by rw [← hfr.2.1]; exact hp2), ?_⟩
       intro hm; rw [hm2 hm]; exact hr.miss _ _ _ _ hc hrs
 
 /-- if one rule of the chain always matches, the chain matches on every non-empty line -/
@@ -141,10 +141,15 @@ theorem block_total (P : BState → Nat → Prop) (hP : FrameClosed P) (rules : 
               | some b => exact ⟨b.empty, by simp⟩
             have hpos : 1 ≤ s2.line := by omega
             have hcast : ((s2.line : Int) - 1) = ((s2.line - 1 : Nat) : Int) := by omega
-            have hlt' : ((s2.line : Int) - 1 < (endLine : Int)) := by omega
-            simp only [hlt', if_true]
-            obtain ⟨e1, he1⟩ := hem (s2.line - 1) (by omega)
-            rw [hcast, he1]
+            have hle2 : s2.line ≤ s2.lineMax := by rw [hfr2.2.1]; exact hp.2
+            have hscrut : ∃ e1, (if (s2.line : Int) - 1 < (endLine : Int) then
+                ({ s2 with tight := !hasEmpty } : BState).isEmpty ((s2.line : Int) - 1) else Except.ok false) = .ok e1 := by
+              split
+              · obtain ⟨e1, he1⟩ := hem (s2.line - 1) (by omega)
+                exact ⟨e1, by rw [hcast]; exact he1⟩
+              · exact ⟨false, rfl⟩
+            obtain ⟨e1, he1⟩ := hscrut
+            rw [he1]
             simp only
             split
             · rename_i hl2
